@@ -268,7 +268,7 @@ impl Engine for C09 {
     }
     fn budget(&self, tier: Tier) -> (u32, u32) {
         match tier {
-            Tier::Quick => (16, 1500),
+            Tier::Quick => (16, 5000),
             Tier::Thorough => (16, 40000),
         }
     }
